@@ -58,7 +58,7 @@ RenameIf(st, from, to, P(_)) ==
       tgt   == {<<to, i[2], i[3]>> : i \in moved}
   IN  {i \in st : i \notin moved /\ <<i[1], i[2], i[3]>> \notin tgt} \cup {<<to, i[2], i[3], i[4]>> : i \in moved}
 
-Num(s) == CHOOSE n \in -1..40 : ToString(n) = s
+Num(s) == CHOOSE n \in -1..64 : ToString(n) = s
 
 NotaryExtra(k) == CASE k = "balance" -> {"nmhash", "cnhash"}
                     [] k = "netmap"  -> {"innerring"}
@@ -68,7 +68,10 @@ NotaryExtra(k) == CASE k = "balance" -> {"nmhash", "cnhash"}
 
 NotaryOn(st) == Has(st, "notary") /\ ValOf(st, "notary") = "true"
 \* common.TryPurgeVotes: a ballot whose last vote is at most 20 blocks old blocks the switch
-PendingVote(k, st) == k \in PurgeKinds /\ NotaryOn(st) /\ Has(st, "ballots") /\ ValOf(st, "ballots") \in {"fresh", "mixed"}
+\* ballots values: "empty", "stale", "many" (8 stale), "edge21" (21 blocks old) do not block;
+\* "fresh", "mixed", "manyfresh" (7 stale + 1 fresh), "edge20" (exactly 20 blocks old) do
+FreshBallots == {"fresh", "mixed", "manyfresh", "edge20"}
+PendingVote(k, st) == k \in PurgeKinds /\ NotaryOn(st) /\ Has(st, "ballots") /\ ValOf(st, "ballots") \in FreshBallots
 
 SwitchToNotary(k, st) ==
   IF ~Has(st, "notary") THEN st
@@ -138,6 +141,7 @@ Listing(m, a, S) == {<<m, a, x>> : x \in S} \cup Count(m, a, S)
 ApiBalance(st, accSh) ==
   {<<"balanceOf", i[2], i[4]>> : i \in {j \in st : j[1] = accSh /\ j[4] # "0"}}
   \cup {<<"totalSupply", "", IF Has(st, "supply") THEN ValOf(st, "supply") ELSE "0">>}
+  \cup {<<"decimals", "", "12">>, <<"symbol", "", "NEOFS">>}
 
 \* cn/ow/sz: the shapes under which containers, owner index entries and size estimations are read
 ApiContainer(st, cn, jk, ow, bogus) ==
@@ -158,24 +162,36 @@ ApiContainer(st, cn, jk, ow, bogus) ==
       \cup {<<"alias", i[2], i[4]>> : i \in {j \in st : j[1] = "alias"}}
       \cup {<<"listContainerSizes", i[2], i[3]>> : i \in sizes}
       \cup {<<"getContainerSize", i[2] \o "|" \o i[3], i[4]>> : i \in sizes}
+      \cup {<<"iterateContainerSizes", i[2] \o "|" \o i[3], i[4]>> : i \in sizes}
+      \cup {<<"iterateAllContainerSizes", i[2], i[3] \o ":" \o i[4]>> : i \in sizes}
 
-ApiNetmap(st, sn, cd) ==
+\* The snapshot ring: `snapcount` slots, `snapcur` = slot of the current epoch, snapshot(d) reads slot
+\* (cur - d + count) % count for every d < count, snapshotByEpoch(e) = snapshot(epoch - e).  A slot (and a candidate) is
+\* stored in the two-field layout ("snap"/"cand") or in the pre-0.16 layout ("osnap": one field, implicitly Online;
+\* "ocand": nested).  legacy = TRUE: what the storage stands for; legacy = FALSE: what the tree version answers - it
+\* returns a structure of the old layout as it is, i.e. without a usable State ("?").
+ApiNetmap(st, legacy) ==
   LET cnt  == IF Has(st, "snapcount") THEN Num(ValOf(st, "snapcount")) ELSE 0
       cur  == IF Has(st, "snapcur") THEN Num(ValOf(st, "snapcur")) ELSE 0
-      stOf(i) == IF i[1] = "osnap" THEN "1" ELSE i[4]              \* the legacy structure is implicitly Online
-      slot(s) == {i[3] \o ":" \o stOf(i) : i \in {j \in st : j[1] = sn /\ j[2] = ToString(s)}}
+      ep   == IF Has(st, "epoch") THEN Num(ValOf(st, "epoch")) ELSE 0
+      stOf(i) == IF i[1] = "snap" THEN i[4] ELSE IF legacy THEN "1" ELSE "?"
+      cdOf(i) == IF i[1] = "cand" \/ legacy THEN i[4] ELSE "?"
+      slot(s) == {i[3] \o ":" \o stOf(i) : i \in {j \in st : j[1] \in {"snap", "osnap"} /\ j[2] = ToString(s)}}
       cfgs == {i \in st : i[1] = "cfg"}
   IN  {<<"epoch", "", IF Has(st, "epoch") THEN ValOf(st, "epoch") ELSE "0">>}
+      \cup (IF Has(st, "block") THEN {<<"lastEpochBlock", "", ValOf(st, "block")>>} ELSE {})
       \cup Listing("netmap", "", slot(cur))
-      \cup Listing("netmapCandidates", "", {i[2] \o ":" \o i[4] : i \in {j \in st : j[1] = cd}})
+      \cup Listing("netmapCandidates", "", {i[2] \o ":" \o cdOf(i) : i \in {j \in st : j[1] \in {"cand", "ocand"}}})
       \cup UNION {Listing("snapshot", ToString(d), slot((cur - d + cnt) % cnt)) : d \in 0..(cnt - 1)}
+      \cup UNION {Listing("snapshotByEpoch", ToString(ep - d), slot((cur - d + cnt) % cnt)) : d \in 0..(cnt - 1)}
       \cup {<<"config", i[2], i[4]>> : i \in cfgs}
       \cup Listing("listConfig", "", {i[2] \o "=" \o i[4] : i \in cfgs})
 
 ApiNNS(st) ==
   LET names == {i[2] : i \in {j \in st : j[1] = "name"}}
       fld(n, f) == (CHOOSE i \in st : i[1] = "name" /\ i[2] = n /\ i[3] = f)[4]
-      recs(t) == {i \in st : i[1] = "rec" \o t}
+      \* records are read through non-TLD names only (the record getters refuse a TLD since 0.18, by design)
+      recs(t) == {i \in st : i[1] = "rec" \o t /\ i[2] \notin TLDs}
   IN  Listing("tokens", "", names)
       \cup Listing("roots", "", {i[2] : i \in {j \in st : j[1] = "root"}})
       \cup (IF Has(st, "price") THEN {<<"getPrice", "", ValOf(st, "price")>>} ELSE {})
@@ -183,6 +199,7 @@ ApiNNS(st) ==
       \cup {<<"properties", n, fld(n, "exp") \o "|" \o fld(n, "admin")>> : n \in names \ TLDs}
       \cup {<<"getRecords", i[2] \o ":16", i[4]>> : i \in recs("16")}
       \cup {<<"getRecords", i[2] \o ":1", i[4]>> : i \in recs("1")}
+      \cup UNION {{<<"getAllRecords", i[2], t \o ":" \o i[3] \o ":" \o i[4]>> : i \in recs(t)} : t \in {"1", "6", "16"}}
       \cup {<<"resolve", i[2], i[4]>> : i \in recs("16")}
       \cup {<<"tokensOf", i[2], i[3]>> : i \in {j \in st : j[1] = "acctok" /\ j[3] \notin TLDs}}
 
@@ -190,9 +207,12 @@ ApiOther(k, st) ==
   CASE k = "neofsid"    -> UNION {Listing("key", o, {i[3] : i \in {j \in st : j[1] = "key" /\ j[2] = o}}) : o \in {i[2] : i \in {j \in st : j[1] = "key"}}}
     [] k = "reputation" -> UNION {Listing("listByEpoch", e, {i[3] : i \in {j \in st : j[1] = "cnt" /\ j[2] = e}}) : e \in {i[2] : i \in {j \in st : j[1] = "cnt"}}}
                            \cup UNION {Listing("get", i[2] \o "|" \o i[3], {i[4]}) : i \in {j \in st : j[1] = "val"}}
+                           \cup UNION {Listing("getByID", i[2] \o "|" \o i[3], {i[4]}) : i \in {j \in st : j[1] = "val"}}
     [] k = "audit"      -> {<<"list", "", i[2] \o "|" \o i[3]>> : i \in {j \in st : j[1] = "res"}}
                            \cup {<<"get", i[2] \o "|" \o i[3], i[4]>> : i \in {j \in st : j[1] = "res"}}
                            \cup {<<"listByEpoch", i[2], i[2] \o "|" \o i[3]>> : i \in {j \in st : j[1] = "res"}}
+                           \cup {<<"listByCID", i[2] \o "|" \o i[3], i[2] \o "|" \o i[3]>> : i \in {j \in st : j[1] = "res"}}
+                           \cup {<<"listByNode", i[2] \o "|" \o i[3], i[2] \o "|" \o i[3]>> : i \in {j \in st : j[1] = "res"}}
     [] k = "alphabet"   -> IF Has(st, "name") THEN {<<"name", "", ValOf(st, "name")>>} ELSE {}
     [] k = "neofs"      -> {<<"alphabetList", "", IF Has(st, "alphabet") THEN ValOf(st, "alphabet") ELSE "">>}
                            \cup {<<"config", i[2], i[4]>> : i \in {j \in st : j[1] = "cfg"}}
@@ -204,14 +224,14 @@ ApiOther(k, st) ==
 NewAPI(k, st) ==
   CASE k = "balance"   -> ApiBalance(st, "aacc")
     [] k = "container" -> ApiContainer(st, "xcnr", "xjunk", "oown", {"osize"})
-    [] k = "netmap"    -> ApiNetmap(st, "snap", "cand")
+    [] k = "netmap"    -> ApiNetmap(st, FALSE)
     [] k = "nns"       -> ApiNNS(st)
     [] OTHER           -> ApiOther(k, st)
 \* the model state that a storage in one of the old layouts stands for, in the vocabulary of the same API
 OldAPI(k, st) ==
   CASE k = "balance"   -> ApiBalance(st, "acc")
     [] k = "container" -> ApiContainer(st, "cnr", "junk32", "own", {})
-    [] k = "netmap"    -> ApiNetmap(st, IF Has(st, "osnap") THEN "osnap" ELSE "snap", IF Has(st, "ocand") THEN "ocand" ELSE "cand")
+    [] k = "netmap"    -> ApiNetmap(st, TRUE)
     [] k = "nns"       -> ApiNNS(st)
     [] OTHER           -> ApiOther(k, st)
 ApiOf(k, vr, st) == IF vr = -1 THEN OldAPI(k, st) ELSE NewAPI(k, st)
@@ -238,7 +258,7 @@ Update(S, v) ==
 
 \* 21 blocks pass: every ballot becomes stale
 Wait ==
-  /\ store' = {IF i[1] = "ballots" /\ i[4] \in {"fresh", "mixed"} THEN <<i[1], i[2], i[3], "stale">> ELSE i : i \in store}
+  /\ store' = {IF i[1] = "ballots" /\ i[4] \in FreshBallots THEN <<i[1], i[2], i[3], "stale">> ELSE i : i \in store}
   /\ api' = ApiOf(kind, ver, store')
   /\ ev' = Event("wait", {}, 0, "HALT")
   /\ UNCHANGED <<kind, mode, era, ver>>
